@@ -1,0 +1,89 @@
+//go:build verif
+
+package types
+
+// Contracts for the deductive verifier in /verif (govc). Comment-only; compiled only with -tags verif.
+
+//@ contract validateVerificationArgs
+//@   invariant #1 seen: forall j int :: 0 <= j && j <= rangeindex ==> specs[j] != nil
+//@   invariant #1 idx: 0 - 1 <= rangeindex && rangeindex < len(specs)
+//@   ensures lengths: err == nil ==> len(specs) == len(proof.Proofs) && len(path.KeyPath) == len(specs)
+//@   ensures specs_nonnil: err == nil ==> forall j int :: 0 <= j && j < len(specs) ==> specs[j] != nil
+//@   ensures root_nonempty: err == nil ==> root != nil && rootHash(root) != ""
+
+// ---- ICS-23 (github.com/cosmos/ics23/go) is outside the verified code: its proof objects are identified by
+// their pointers (the verification functions never write through them) and its three entry points are
+// specified by ghost functions. existOK/nonExistOK are established only by these contracts, so "verification
+// succeeded" implies that ics23 was asked exactly the stated question and answered yes (assumption T-lightclient:
+// ics23 is sound for the spec it is given).
+
+//@ spec func calcRoot(p int) string
+//@ spec func calcErr(p int) bool
+//@ spec func existOf(p int) int
+//@ spec func nonexistOf(p int) int
+//@ spec func existOK(ep int, spec int, root string, key string, value string) bool
+//@ spec func nonExistOK(np int, spec int, root string, key string) bool
+
+//@ contract github.com/cosmos/ics23/go.(*CommitmentProof).Calculate
+//@   pure
+//@   ensures (err != nil) == calcErr(p)
+//@   ensures err == nil ==> str(result0) == calcRoot(p)
+
+//@ contract github.com/cosmos/ics23/go.(*CommitmentProof).GetExist
+//@   pure
+//@   ensures result == existOf(m)
+
+//@ contract github.com/cosmos/ics23/go.(*CommitmentProof).GetNonexist
+//@   pure
+//@   ensures result == nonexistOf(m)
+
+//@ contract github.com/cosmos/ics23/go.(*ExistenceProof).Verify
+//@   pure
+//@   ensures err == nil ==> existOK(p, spec, str(root), str(key), str(value))
+
+//@ contract github.com/cosmos/ics23/go.(*NonExistenceProof).Verify
+//@   pure
+//@   ensures err == nil ==> nonExistOK(p, spec, str(root), str(key))
+
+//@ contract verifyChainedMembershipProof
+//@   let v0 = str(value)
+//@   let n = len(proofs)
+//@   let nk = len(keys.KeyPath)
+//@   requires 0 <= index && index <= 1
+//@   requires len(specs) == n && nk == n
+//@   invariant #1 bounds: index <= i && (i <= n || i == index)
+//@   invariant #1 cur: str(subroot) == str(value) && str(value) == ite(i == index, v0, calcRoot(proofs[i - 1]))
+//@   invariant #1 chain: forall j int :: index <= j && j < i ==> existOK(existOf(proofs[j]), specs[j], calcRoot(proofs[j]), str(keys.KeyPath[nk - 1 - j]), ite(j == index, v0, calcRoot(proofs[j - 1])))
+//@   ensures chain: err == nil ==> forall j int :: index <= j && j < n ==> existOK(existOf(proofs[j]), specs[j], calcRoot(proofs[j]), str(keys.KeyPath[nk - 1 - j]), ite(j == index, v0, calcRoot(proofs[j - 1])))
+//@   ensures root: err == nil ==> str(root) == ite(index < n, calcRoot(proofs[n - 1]), v0)
+
+//@ contract (MerkleRoot).GetHash
+//@   ensures str(result) == str(mr.Hash)
+
+//@ contract (MerkleRoot).Empty
+//@   ensures result == (str(mr.Hash) == "")
+
+// Membership: success means the arguments are well-formed, the value is non-empty, every level of the chain was
+// accepted by ics23 for exactly (spec_j, subroot_j, key_{n-1-j}, value_j) with value_0 the given value and
+// value_{j+1} = subroot_j, and the last subroot is the given root.
+
+//@ contract (MerkleProof).VerifyMembership
+//@   let n = len(p.Proofs)
+//@   let mp = dyn(path, v2.MerklePath)
+//@   ensures path_type: err == nil ==> isType(path, v2.MerklePath)
+//@   ensures args: err == nil ==> len(specs) == n && len(mp.KeyPath) == n && root != nil && rootHash(root) != ""
+//@   ensures value_nonempty: err == nil ==> len(value) > 0
+//@   ensures chain: err == nil ==> forall j int :: 0 <= j && j < n ==> specs[j] != nil && existOK(existOf(p.Proofs[j]), specs[j], calcRoot(p.Proofs[j]), str(mp.KeyPath[n - 1 - j]), ite(j == 0, str(value), calcRoot(p.Proofs[j - 1])))
+//@   ensures root: err == nil ==> rootHash(root) == ite(0 < n, calcRoot(p.Proofs[n - 1]), str(value))
+
+// Non-membership: the lowest level is an ics23 non-existence proof for the last key under subroot_0, and the
+// chain continues from level 1 with value_1 = subroot_0.
+
+//@ contract (MerkleProof).VerifyNonMembership
+//@   let n = len(p.Proofs)
+//@   let mp = dyn(path, v2.MerklePath)
+//@   ensures path_type: err == nil ==> isType(path, v2.MerklePath)
+//@   ensures args: err == nil ==> len(specs) == n && len(mp.KeyPath) == n && n >= 1 && root != nil && rootHash(root) != ""
+//@   ensures absent: err == nil ==> nonExistOK(nonexistOf(p.Proofs[0]), specs[0], calcRoot(p.Proofs[0]), str(mp.KeyPath[n - 1])) && nonexistOf(p.Proofs[0]) != 0
+//@   ensures chain: err == nil ==> forall j int :: 1 <= j && j < n ==> existOK(existOf(p.Proofs[j]), specs[j], calcRoot(p.Proofs[j]), str(mp.KeyPath[n - 1 - j]), calcRoot(p.Proofs[j - 1]))
+//@   ensures root: err == nil ==> rootHash(root) == calcRoot(p.Proofs[n - 1])
